@@ -65,6 +65,18 @@ static void full_observe(ST& st, const ref::Complex& m, const std::string& what)
   (void)before;
 }
 
+// The filtration order read WITHOUT touching the cache first: directly after a copy / move nobody has modified the
+// complex, so whatever cache the object holds must be valid (a moved-from tree must expose an empty range).
+static void observe_cache(ST& st, const ref::Complex& m, const std::string& what) {
+  if constexpr (Opt::store_key) {
+    std::vector<Simplex> got;
+    for (auto h : st.filtration_simplex_range()) got.push_back(simplex_of(st, h));
+    if (got != m.filtration_order())
+      vf::mismatch("C15:" + what + ":filtration_simplex_range(cache as left by the operation)", std::string(opt_name) + " got " + strset(got) + " model=" + m.key());
+    vf::stats().add("ev.transitions");
+  }
+}
+
 // one-step continuations (model effect + implementation call)
 struct Cont { std::string name; std::function<bool(const ref::Complex&)> enabled; std::function<void(ref::Complex&)> on_model; std::function<void(ST&)> on_impl; };
 static std::vector<Cont> g_conts;
@@ -123,6 +135,8 @@ static void check_pair(const State& A, const State& B, Kind k) {
     Pair p;
     if (!make(p, A, B, k)) return;
     // (i) both objects observationally equal to their models
+    if (p.dst) observe_cache(*p.dst, p.mdst, tag + ":target");
+    observe_cache(*p.src, p.msrc, tag + ":source");
     if (p.dst) full_observe(*p.dst, p.mdst, tag + ":target");
     full_observe(*p.src, p.msrc, tag + ":source");
     vf::stats().add(std::string("kind.") + tag);
